@@ -1,10 +1,12 @@
 """C09 — static rules enforced exactly: ill-formed programs rejected, well-formed ones accepted, the
 diagnostic naming the broken rule's category.
 
-Proof: Props/C09.lean (the probed operator / builtin tables of the real checker = the model's = the
-documented ones up to the listed D-09d entries; for every program the diagnostics of the scoping rules
-are exactly the violations of the declarative specification; the full equivalence is false of the
-current code — D-09b/c/d — and holds under an explicit typing hypothesis).
+Proof: Props/C09.lean (the probed operator / builtin tables and return-type probes of the real checker =
+the model's = the documented ones; for every program the diagnostics of the scoping rules are exactly the
+violations of the declarative specification; for every program whose `return` expressions are well typed
+where the result types are determined (Spec.ReturnsTyped) the checker rejects iff a documented rule is
+broken — typing included; without that hypothesis the equivalence is false of the current code, D-09f;
+D-09b is fixed and stays documented as a theorem about the pinned inference).
 Tie: family `resolve` (diagnostics, bindings and facts of the real resolver vs Model/Resolve.lean) on the
 real parser's AST, and — composed — family `pipe`, `front` requests: the verdict and the diagnostics of the
 WHOLE real front end on a source text vs the Lean front end (own lexer, own parser, own template scanner,
